@@ -1885,7 +1885,13 @@ fn c04_run(case: &mut Case, rng: &mut Rng) {
     if case.idx % 7 == 3 {
         // blocked-writer probe on a private Sim (see `xprobe_bw`)
         let cap = 1 + (case.idx / 7) % 3;
-        let mode = if (case.idx / 21) % 2 == 0 { "crash" } else { "drop" };
+        // … the writer parked in `write_all`, or (suffix `w`) in `writable()` before `try_write`
+        let mode = match ((case.idx / 21) % 2, (case.idx / 84) % 2) {
+            (0, 0) => "crash",
+            (1, 0) => "drop",
+            (0, _) => "crashw",
+            _ => "dropw",
+        };
         let dir = if (case.idx / 42) % 2 == 0 { "c2s" } else { "s2c" };
         case.ctl(&format!("xprobe_bw {cap} {mode} {dir}"));
     }
